@@ -48,7 +48,7 @@ if ! (cd "$DIR" && RUSTFLAGS='--cfg texcraft_verif_sched' cargo build --release 
   # does not mirror: name it. Otherwise the tree itself is broken.
   ERRS=$(grep -E -A6 '^error(\[E[0-9]+\])?:' "$DIR/target/build.log" | grep -v '^--$' | head -n 24)
   if (cd "$DIR" && CARGO_TARGET_DIR="$DIR/target/nocfg" cargo check --offline -q -p texlang 2>"$DIR/target/build-nocfg.log"); then
-    MISSING=$(grep -E '^error' "$DIR/target/build.log" | grep -oE '`[^`]+`' | tr -d '`' | sort -u | head -n 8 | tr '\n' ' ')
+    MISSING=$(grep -E '^error' "$DIR/target/build.log" | grep -oE '`[^`]+`' | tr -d '`' | grep -vxE 'sync|texlang|std|core' | sort -u | head -n 8 | tr '\n' ' ')
     echo "MACHINERY-ERROR C20: texlang compiles WITHOUT --cfg texcraft_verif_sched but not WITH it: command/mod.rs now uses a synchronisation API that the seam crates/texlang/src/command/verif_sync.rs does not provide (names in the errors: $MISSING). Extend the seam (hook H1) with that API; this is not a verdict on the property." >&2
     echo "$ERRS" >&2
   else
